@@ -1,0 +1,14 @@
+//go:build verif
+
+// Machine-checked contracts for package signappx (comment-only; see /verif/DESIGN.md).
+
+package signappx
+
+//@ func (*ContentTypes).Add
+//@   property C11
+//@   nopanic
+//@   requires c.ByExt != nil && c.ByOverride != nil
+//@
+//@ func (*ContentTypes).Find
+//@   property C11
+//@   nopanic
